@@ -113,3 +113,47 @@ CHECKS['C05'] = dict(
     min_nontrivial={'quick': 1000, 'thorough': 2000},
     min_counters={'quick': {'cbr_exact_checked': 20000, 'ms_cbr_exact_checked': 5000, 'cvbr_streams': 400}, 'thorough': {'cbr_exact_checked': 500000}},
 )
+
+CHECKS['C07'] = dict(
+    level='exploration',
+    rule="seq: random sequences of 1..40 repacketizer operations (cat of ground-truth built packets: all codes, CBR/VBR, 1..48 frames, "
+         "frame sizes 0..1275, padding none/zeros/arbitrary bytes/valid extensions; cat of incompatible, over-120ms and hostile invalid "
+         "packets, freed immediately after rejection; out, out_range over valid and invalid ranges, init) against a shadow list of frames; "
+         "each out_range is run with a generous buffer, with 1277*n bytes and with maxlen at need-1/need/random. pad: encoder streams and "
+         "built packets padded by 1..2500 bytes, decoded on twin decoders, unpadded, compared with the canonical encoding. mspad: 1..8 "
+         "stream packets through opus_multistream_packet_pad/unpad. Distinct = (frame count, output code, extensions present, range "
+         "position, size classes, configuration / pad amount class).",
+    assumptions=COMMON_ASSUME + ["oracles/rfc_framing.h decides validity and frame boundaries of every output",
+                                 "'canonical' = code 0 for one frame, code 1/2 for two, code 3 CBR/VBR otherwise, no padding (the documented choice)"],
+    evals_counter=None,
+    runs=[
+        dict(h='h_c07.c', mode='seq', flavour='asan', n={'quick': 60000, 'thorough': 1500000}),
+        dict(h='h_c07.c', mode='pad', flavour='asan', n={'quick': 40000, 'thorough': 1000000}),
+        dict(h='h_c07.c', mode='mspad', flavour='asan', n={'quick': 20000, 'thorough': 500000}),
+    ],
+    min_nontrivial={'quick': 1000, 'thorough': 2000},
+    min_counters={'quick': {'out_range_calls': 50000, 'cat_accepted': 50000, 'pad_ok': 8000, 'unpad_idempotent': 20000, 'msunpad_idempotent': 10000},
+                  'thorough': {'out_range_calls': 400000}},
+)
+
+CHECKS['C16'] = dict(
+    level='exploration',
+    rule="gen: legal extension lists (0..9000 entries, 1..48 frames, sorted and shuffled, repeat-eligible patterns, short ids with 0/1 "
+         "bytes, long payloads 0..70000 around the 254/255/509/510 lacing boundaries) -> dry-run size, exact-size guarded buffer, two "
+         "smaller buffers, parse back through count / parse / count_ext / parse_ext / iterator (next, reset, set_frame_max, find), padded "
+         "serialisation, one illegal mutation. bytes: raw random, small-alphabet, grammar-aware and mutated-generator byte strings in "
+         "exact-size blocks through the same cross-API agreement + bounds checks, then parse->generate->parse. repack: 1..6 ground-truth "
+         "packets with extensions concatenated, four [begin,end) ranges (standard, self-delimited, pad, extra extensions) and "
+         "opus_packet_pad_impl; output extensions compared with the ground truth per frame. Distinct = (frame-count class, list-size class, "
+         "long/short mix, payload class, serialised size class / kind, error tail / range position, flags).",
+    assumptions=COMMON_ASSUME + ["conformance of the byte format to the IETF extension draft is not claimed, only internal agreement, bounds and round trips (as the property states)"],
+    evals_counter=None,
+    runs=[
+        dict(h='h_c16.c', mode='gen', flavour='asan', n={'quick': 120000, 'thorough': 3000000}),
+        dict(h='h_c16.c', mode='bytes', flavour='asan', n={'quick': 600000, 'thorough': 12000000}),
+        dict(h='h_c16.c', mode='repack', flavour='asan', n={'quick': 100000, 'thorough': 2000000}),
+    ],
+    min_nontrivial={'quick': 1000, 'thorough': 2000},
+    min_counters={'quick': {'roundtrip_ok': 100000, 'fixedpoint_ok': 400000, 'repack_carried_nonempty': 100000, 'pad_impl_ok': 60000, 'lists_over_2000_entries': 200},
+                  'thorough': {'roundtrip_ok': 1000000}},
+)
